@@ -340,6 +340,25 @@ impl World {
                 }
                 r
             }
+            "migrate" => {
+                // the contract's wasm admin migrates it (to the code registered under `code`, or to `code_id`)
+                let code = req.get("code").and_then(|x| x.as_str()).unwrap_or("").to_string();
+                let code_id = match self.codes.get(&code) {
+                    Some(c) => *c,
+                    None => req.get("code_id").and_then(|x| x.as_u64()).unwrap_or(0),
+                };
+                let msg = CosmosMsg::Wasm(WasmMsg::Migrate {
+                    contract_addr: s(req, "contract"),
+                    new_code_id: code_id,
+                    msg: Binary(s(req, "msg").into_bytes()),
+                });
+                let sender = s(req, "sender");
+                let mut r = self.run_msg(&sender, msg);
+                if req.get("snap").and_then(|x| x.as_bool()).unwrap_or(false) {
+                    r["snap"] = self.snapshot();
+                }
+                r
+            }
             "bank" => {
                 let msg = CosmosMsg::Bank(BankMsg::Send {
                     to_address: s(req, "to"),
